@@ -63,7 +63,7 @@ def cases(draw, tier):
         "opts": {"center": draw(st.sampled_from([None, [1.0, -2.0]])), "center_form": draw(st.sampled_from(["list", "tuple", "numpy"])), "radius": draw(st.sampled_from([None, 2.5])), "resolution": draw(st.sampled_from([0.35, 1.0])),
                  "equidistant": draw(st.booleans()), "seed": draw(st.integers(0, 99)), "k": draw(st.sampled_from([None, 0.5])), "phantom": draw(st.booleans())},
         "max_order": draw(st.sampled_from([None, None, 1, 2, 3])),
-        "style": draw(st.sampled_from(["default", "scalar", "list", "dict", "stat", "const-array"])),
+        "style": draw(st.sampled_from(["default", "scalar", "list", "dict", "stat", "const-array", "dict-all"])),
         "fn": draw(st.sampled_from(["draw", "draw", "draw_nodes", "draw_hyperedges", "draw_simplices"])),
         "posmode": draw(st.sampled_from(["same", "same", "reversed", "extra", "line", "grid"])),
         # presentation options that must not change what is rendered where (None = leave the default)
@@ -131,7 +131,7 @@ def run_case(case, ctx):
         for nm in ("circular", "spiral", "random"):
             if nm != name:
                 check_layout(ctx, nm, lays[nm](), nodes)
-        if not sc:
+        if True:  # hypergraphs and complexes alike: one position per node and one per edge / simplex ID
             np_, ep = xgi.bipartite_spring_layout(H, seed=o["seed"], k=o["k"])
             check_layout(ctx, "bipartite-nodes", np_, nodes)
             check_layout(ctx, "bipartite-edges", ep, list(mem))
@@ -189,7 +189,9 @@ def run_case(case, ctx):
             nkw = {"node_size": {n: 9 for n in nodes}, "node_lw": [2.0] * len(nodes)}
         elif style == "stat":
             nkw = {"node_fc": H.nodes.degree, "node_size": H.nodes.degree}
-            ekw = {"edge_fc": H.edges.size} if not sc else {}
+            ekw = {"edge_fc": H.edges.size, "dyad_lw": H.edges.order} if not sc else {}
+        elif style == "dict-all" and not sc:  # per-ID values for *every* edge, whether it is drawn as a line or not
+            ekw = {"dyad_lw": {e: 1.0 + (i % 3) for i, e in enumerate(mem)}}
         dec = case.get("decor") or {}
         hull = bool(dec.get("hull")) and not sc
         if dec:
